@@ -103,9 +103,11 @@ func vpH_c19_marshal_frame() {
 		}
 	}
 	nIndex := len(m.index)
+	whole := vpSnapshot(m)
 	_, _ = m.MarshalJSON()
 	_, _ = m.MarshalYAML()
 	_ = m.ToMap()
+	vpAssert(vpUnchanged(m, whole), "encoders write nothing at all into the map (no cached encoding, no lazily built state)")
 	vpAssert(len(m.items) == len(items) && len(m.index) == nIndex, "encoders keep the number of slots and index entries (no lazy compaction)")
 	for i := range items {
 		if i < len(m.items) {
